@@ -1,14 +1,19 @@
 package main
 
-func clusterUnits(tier string, quick, thorough []Unit) []Unit {
-	if tier == "thorough" {
-		return thorough
+func scUnit(name string, bound int) Unit {
+	sc := scenarioByName(name)
+	if sc == nil {
+		panic("unknown scenario " + name)
 	}
-	return quick
+	return Unit{Name: name, Sc: sc, Bound: bound}
 }
 
-func scUnit(name string, bound int) Unit {
-	return Unit{Name: name, Sc: scenarioByName(name), Bound: bound}
+func scUnits(bound int, names ...string) []Unit {
+	var out []Unit
+	for _, n := range names {
+		out = append(out, scUnit(n, bound))
+	}
+	return out
 }
 
 const clusterRule = "deviation-bounded DFS over environment decisions (message delivery/loss/duplication/reordering, timer order, crashes, storage faults, scripted client steps) of the real package raft under a cooperative scheduler; a case is one complete execution; non-trivial/distinct = distinct final outcome (end reason, per-server role/term/commit, per-call result, violation set)"
@@ -19,12 +24,75 @@ var clusterAssumptions = []string{
 	"stores and transport are harness implementations honouring the LogStore/StableStore/SnapshotStore/Transport contracts",
 }
 
-func init() {
-	register(&Check{Prop: "C01", Level: "model_checking", Rule: clusterRule, Assumptions: clusterAssumptions, Units: func(tier string) []Unit {
-		return clusterUnits(tier,
-			[]Unit{scUnit("elect3", 1), scUnit("elect2", 1), scUnit("write3", 1), scUnit("crash3", 1)},
-			[]Unit{scUnit("elect3", 2), scUnit("elect2", 2), scUnit("elect5", 1), scUnit("write3", 2), scUnit("crash3", 2)})
+func clusterCheck(prop string, quick, thorough func() []Unit) {
+	register(&Check{Prop: prop, Level: "model_checking", Rule: clusterRule, Assumptions: clusterAssumptions, Units: func(tier string) []Unit {
+		if tier == "thorough" {
+			return thorough()
+		}
+		return quick()
 	}})
+}
+
+func cat(us ...[]Unit) []Unit {
+	var out []Unit
+	for _, u := range us {
+		out = append(out, u...)
+	}
+	return out
+}
+
+func init() {
+	clusterCheck("C01",
+		func() []Unit {
+			return scUnits(1, "elect3", "elect2", "write3", "crash3", "majority-restart", "transfer", "member", "fig8")
+		},
+		func() []Unit {
+			return cat(scUnits(2, "elect3", "elect2", "write3", "crash3", "majority-restart", "transfer", "member", "member-race", "fig8"), scUnits(1, "elect5"))
+		})
+	clusterCheck("C02",
+		func() []Unit {
+			return scUnits(1, "write3", "crash3", "snap3", "snap3-trail1", "snap3-mono", "stale-suffix", "majority-restart", "member")
+		},
+		func() []Unit {
+			return scUnits(2, "write3", "crash3", "snap3", "snap3-trail1", "snap3-mono", "stale-suffix", "majority-restart", "member", "fig8", "transfer")
+		})
+	clusterCheck("C03",
+		func() []Unit {
+			return scUnits(1, "write3", "crash3", "fig8", "majority-restart", "stale-suffix", "transfer", "member")
+		},
+		func() []Unit {
+			return scUnits(2, "write3", "crash3", "fig8", "majority-restart", "stale-suffix", "transfer", "member", "member-race", "snap3")
+		})
+	clusterCheck("C04",
+		func() []Unit {
+			return scUnits(1, "write3", "crash3", "fig8", "stale-suffix", "stale-suffix-trail", "snap3", "majority-restart")
+		},
+		func() []Unit {
+			return scUnits(2, "write3", "crash3", "fig8", "stale-suffix", "stale-suffix-trail", "snap3", "snap3-mono", "majority-restart", "member")
+		})
+	clusterCheck("C05",
+		func() []Unit { return scUnits(1, "write3", "crash3", "member", "member-race", "fig8", "transfer") },
+		func() []Unit {
+			return scUnits(2, "write3", "crash3", "member", "member-race", "fig8", "transfer", "snap3")
+		})
+	clusterCheck("C07",
+		func() []Unit { return scUnits(1, "member", "member-race", "transfer") },
+		func() []Unit { return scUnits(2, "member", "member-race", "transfer", "crash3") })
+	clusterCheck("C08",
+		func() []Unit { return scUnits(1, "write3", "crash3", "transfer", "majority-restart") },
+		func() []Unit { return scUnits(2, "write3", "crash3", "transfer", "majority-restart", "fig8") })
+	clusterCheck("C10",
+		func() []Unit { return scUnits(1, "write3", "crash3", "majority-restart", "member", "snap3", "snap3-mono") },
+		func() []Unit {
+			return scUnits(2, "write3", "crash3", "majority-restart", "member", "snap3", "snap3-mono", "stale-suffix")
+		})
+	clusterCheck("C11",
+		func() []Unit {
+			return scUnits(1, "snap3", "snap3-trail1", "snap3-mono", "stale-suffix", "stale-suffix-trail", "member")
+		},
+		func() []Unit {
+			return scUnits(2, "snap3", "snap3-trail1", "snap3-mono", "stale-suffix", "stale-suffix-trail", "member", "crash3")
+		})
 }
 
 func replayEnum(rf *ReplayFile) int { return 2 }
